@@ -1,6 +1,64 @@
-(* C03 (growing) *)
-From GF Require Import Base.Bytes Model.Mem Proofs.MemProofs.
-Theorem C03_put_frame : forall s b k body m s' r b' k',
-  put_object s b k body m = (s', r) -> (b', k') <> (b, k) -> get_object s' b' k' = get_object s b' k'.
-Proof. exact get_put_other. Qed.
-Print Assumptions C03_put_frame.
+(* C03 — Listings are the exact, sorted, correctly grouped view of the live keys.
+   Model: Model/Prefix.v prefix_match (Prefix.Match), Model/Mem.v scan (the ListBucket loop),
+   Model/MemWalk.v unpaged / live_keys.  Spec: Spec/ListSpec.v classify, spec_contents,
+   spec_prefixes. *)
+From GF Require Import Base.Bytes Base.SortedMap Model.Prefix Model.Mem Model.MemWalk Spec.ListSpec
+  Proofs.SortedMapFacts Proofs.PrefixProofs Proofs.ListExact Proofs.ListDomain.
+
+(* Prefix.Match = the declarative classification, for every delimiter byte, every key that
+   neither starts nor ends with it and every prefix that does not start with it *)
+Theorem C03_match_spec : forall d pre key,
+  starts_with d key = false -> ends_with d key = false -> starts_with d pre = false ->
+  prefix_match pre (Some d) key = classify pre (Some d) key.
+Proof. exact match_eq_classify_delim. Qed.
+Print Assumptions C03_match_spec.
+
+Theorem C03_match_spec_nodelim : forall pre key, prefix_match pre None key = classify pre None key.
+Proof. exact match_eq_classify_nodelim. Qed.
+Print Assumptions C03_match_spec_nodelim.
+
+(* a common prefix is "prefix + segment up to and including the first delimiter": a literal
+   prefix of the key that extends the request prefix and ends with the delimiter *)
+Theorem C03_common_prefix_shape : forall pre d key p,
+  classify pre (Some d) key = MCommon p -> prefixb p key = true /\ prefixb pre p = true /\ last p 0%N = d.
+Proof. exact classify_common_is_prefix. Qed.
+Print Assumptions C03_common_prefix_shape.
+
+(* the unpaginated listing is exactly the spec: Contents = live keys that start with the
+   prefix and have no delimiter after it; CommonPrefixes = each group once; for every bucket
+   content, prefix and delimiter of the domain *)
+Theorem C03_list_exact : forall pre delim items,
+  ListExact.data_some items -> pre_ok delim pre -> Forall (key_ok delim) (map fst items) ->
+  map fst (lr_contents (unpaged pre delim items)) = spec_contents pre delim (live_keys items) /\
+  lr_prefixes (unpaged pre delim items) = spec_prefixes pre delim (live_keys items).
+Proof. exact list_exact. Qed.
+Print Assumptions C03_list_exact.
+
+(* each exactly once *)
+Theorem C03_common_prefixes_once : forall l, NoDup (dedup l).
+Proof. exact dedup_nodup. Qed.
+Print Assumptions C03_common_prefixes_once.
+
+(* ascending byte order *)
+Theorem C03_keys_ascending : forall pre delim (items : list (list N * obj)),
+  sorted items -> ListExact.data_some items ->
+  ascending (map fst (lr_contents (unpaged pre delim items))).
+Proof. exact listed_keys_ascending. Qed.
+Print Assumptions C03_keys_ascending.
+
+(* Size and ETag derive from the body of the key's current, not delete-marked, version *)
+Theorem C03_entry_is_current_version : forall pre delim items k body,
+  ListExact.data_some items -> In (k, body) (lr_contents (unpaged pre delim items)) ->
+  exists o v, In (k, o) items /\ o_data o = Some v /\ vd_marker v = false /\ vd_body v = body.
+Proof. exact unpaged_bodies. Qed.
+Print Assumptions C03_entry_is_current_version.
+
+(* non-vacuity *)
+Definition c03_obj (body : list N) (marker : bool) : obj :=
+  {| o_data := Some {| vd_vid := 1; vd_null := true; vd_marker := marker; vd_body := body; vd_meta := [] |}; o_vers := [] |}.
+Example C03_ex :
+  let items := [([97;47;49]%N, c03_obj [1]%N false); ([97;47;50]%N, c03_obj [2]%N true);
+                ([97;47;51]%N, c03_obj [3]%N false); ([98]%N, c03_obj [4]%N false)] in
+  (map fst (lr_contents (unpaged [] (Some 47%N) items)), lr_prefixes (unpaged [] (Some 47%N) items))
+  = ([[98]%N], [[97;47]%N]).
+Proof. vm_compute. reflexivity. Qed.
